@@ -1,6 +1,1045 @@
-//! C16 — not built yet.
-use crate::rt::*;
+//! C16 — seeded expansion is reproducible, draws are fresh, samples are well-formed.
+//!
+//! (1) Generator model: the byte stream of `BlakeRNG::from_seed(s)` is the concatenation over
+//!     c = 0,1,2,.. of the first 4096 bytes of BLAKE3-XOF(s || c as LE u64), recomputed here with the
+//!     `blake3` crate.  Byte reads are checked exactly against a position-tracking model; word reads
+//!     must equal the stream bytes (little-endian) at SOME offset between the cursor and the cursor
+//!     rounded up to the word width (how word reads align is an implementation choice, the property
+//!     only promises a deterministic, chunking-independent byte stream).  The model therefore keeps a
+//!     set of candidate cursors.
+//! (2) Freshness history: unique-identifier discipline over encryptions / key generations of one
+//!     context; explicit-generator entry points reproduce the mask and still draw fresh noise.
+//! (3) Samplers: RNS consistency, bounds and exact-law goodness of fit (p < 1e-12 is a violation).
 
-pub fn run(_cfg: &Cfg, _rep: &mut Report) -> PropMeta {
-    PropMeta { id: "C16", level: "exploration", rule: "not built", assumptions: vec![], exhaustive: false, floor: 1 }
+use crate::he::*;
+use crate::props::c01::gen_plain;
+use crate::refm;
+use crate::rt::*;
+use heathcliff::util::rlwe::{encrypt_zero, sample};
+use heathcliff::util::{BlakeRNG, BlakeRNGFactory, PRNGSeed};
+use heathcliff::*;
+use rand::{RngCore, SeedableRng};
+use serde_json::{json, Value};
+use std::collections::{HashMap, HashSet};
+
+const P: &str = "C16";
+const BLOCK: u64 = 4096;
+
+// ====================================================================== stream model
+fn model_block(seed: &[u8; 64], c: u64) -> Box<[u8; 4096]> {
+    let mut h = blake3::Hasher::new();
+    h.update(seed);
+    h.update(&c.to_le_bytes());
+    let mut out = Box::new([0u8; 4096]);
+    h.finalize_xof().fill(&mut out[..]);
+    out
+}
+
+struct Stream { seed: [u8; 64], cache: HashMap<u64, Box<[u8; 4096]>> }
+impl Stream {
+    fn new(seed: [u8; 64]) -> Stream { Stream { seed, cache: HashMap::new() } }
+    fn block(&mut self, c: u64) -> &[u8; 4096] {
+        if !self.cache.contains_key(&c) {
+            if self.cache.len() > 48 { self.cache.clear(); }
+            let b = model_block(&self.seed, c);
+            self.cache.insert(c, b);
+        }
+        self.cache.get(&c).unwrap()
+    }
+    /// index of the first byte of `data` that differs from the stream at `pos` (None = equal)
+    fn first_diff(&mut self, pos: u64, data: &[u8]) -> Option<usize> {
+        let mut done = 0usize;
+        while done < data.len() {
+            let p = pos + done as u64;
+            let (c, off) = (p / BLOCK, (p % BLOCK) as usize);
+            let take = (4096 - off).min(data.len() - done);
+            let blk = self.block(c);
+            if blk[off..off + take] != data[done..done + take] {
+                for i in 0..take { if blk[off + i] != data[done + i] { return Some(done + i); } }
+            }
+            done += take;
+        }
+        None
+    }
+    fn eq_at(&mut self, pos: u64, data: &[u8]) -> bool { self.first_diff(pos, data).is_none() }
+    fn bytes(&mut self, pos: u64, n: usize) -> Vec<u8> {
+        let mut out = Vec::with_capacity(n);
+        let mut p = pos;
+        while out.len() < n {
+            let (c, off) = (p / BLOCK, (p % BLOCK) as usize);
+            let take = (4096 - off).min(n - out.len());
+            let blk = self.block(c);
+            out.extend_from_slice(&blk[off..off + take]);
+            p += take as u64;
+        }
+        out
+    }
+}
+
+fn align_up(x: u64, w: u64) -> u64 { (x + w - 1) / w * w }
+
+/// sequential model: set of cursors that are consistent with everything observed so far
+struct Model { stream: Stream, cands: Vec<u64> }
+impl Model {
+    fn new(seed: [u8; 64]) -> Model { Model { stream: Stream::new(seed), cands: vec![0] } }
+    fn cursor(&self) -> u64 { self.cands[0] }
+    fn fill(&mut self, data: &[u8]) -> Result<(), String> {
+        let mut next: Vec<u64> = vec![];
+        for &c in &self.cands.clone() { if self.stream.eq_at(c, data) { next.push(c + data.len() as u64); } }
+        next.sort(); next.dedup();
+        if next.is_empty() {
+            let c = self.cursor();
+            let d = self.stream.first_diff(c, data).unwrap_or(0);
+            let want = self.stream.bytes(c + d as u64, (data.len() - d).min(8));
+            return Err(format!("byte read of {} bytes at stream offset {} (block {}, in-block {}): first wrong byte at +{} (stream offset {}, in-block {}), got {} expected {}",
+                data.len(), c, c / BLOCK, c % BLOCK, d, c + d as u64, (c + d as u64) % BLOCK, hex(&data[d..(d + 8).min(data.len())]), hex(&want)));
+        }
+        self.cands = next;
+        Ok(())
+    }
+    /// word read of `w` bytes; returns which admissible offset matched for the primary cursor
+    fn word(&mut self, w: u64, bytes: &[u8]) -> Result<&'static str, String> {
+        let mut next: Vec<u64> = vec![];
+        let mut how = "";
+        for (k, &c) in self.cands.clone().iter().enumerate() {
+            let hi = align_up(c, w);
+            // unaligned first, then aligned, then the offsets in between
+            let mut order = vec![c];
+            if hi != c { order.push(hi); for p in c + 1..hi { order.push(p); } }
+            for p in order {
+                if self.stream.eq_at(p, bytes) {
+                    next.push(p + w);
+                    if k == 0 && how.is_empty() { how = if hi == c { "cursor_already_aligned" } else if p == c { "at_unaligned_cursor" } else if p == hi { "at_aligned_up_cursor" } else { "between" }; }
+                }
+            }
+        }
+        next.sort(); next.dedup();
+        if next.is_empty() {
+            let c = self.cursor(); let hi = align_up(c, w);
+            let want_a = self.stream.bytes(hi, w as usize); let want_u = self.stream.bytes(c, w as usize);
+            return Err(format!("{}-byte word read at stream offset {} (block {}, in-block {}): got {} ; stream has {} at the aligned offset {} and {} at the cursor; no offset in [{},{}] matches",
+                w, c, c / BLOCK, c % BLOCK, hex(bytes), hex(&want_a), hi, hex(&want_u), c, hi));
+        }
+        self.cands = next;
+        Ok(how)
+    }
+}
+
+fn hex(b: &[u8]) -> String { b.iter().map(|x| format!("{:02x}", x)).collect() }
+
+fn rand_seed(rng: &mut Rng) -> [u8; 64] {
+    let mut s = [0u8; 64];
+    for i in 0..8 { s[i * 8..i * 8 + 8].copy_from_slice(&rng.u64().to_le_bytes()); }
+    s
+}
+fn gen_seed(rng: &mut Rng) -> ([u8; 64], &'static str) {
+    match rng.below(10) {
+        0 => ([0u8; 64], "all_zero"),
+        1 => ([0xffu8; 64], "all_ff"),
+        2 => { let mut s = [0u8; 64]; let b = rng.usize_below(512); s[b / 8] |= 1 << (b % 8); (s, "single_bit") }
+        _ => (rand_seed(rng), "random"),
+    }
+}
+fn blake(seed: [u8; 64]) -> BlakeRNG { BlakeRNG::from_seed(PRNGSeed(seed)) }
+
+// ====================================================================== (1a) operation sequences
+#[derive(Clone, Copy, Debug)]
+enum Op { Fill(usize), TryFill(usize), U32, U64 }
+
+fn gen_op(rng: &mut Rng, cur: u64) -> Op {
+    let d = (BLOCK - cur % BLOCK) as i64; // distance to the next refill, 1..=4096
+    let near = |rng: &mut Rng| -> usize { (d + rng.below(19) as i64 - 9).max(0) as usize };
+    match rng.below(100) {
+        0..=17 => Op::Fill(rng.usize_below(10)),
+        18..=37 => Op::Fill(near(rng)),
+        38..=45 => Op::Fill(*rng.pick(&[4095usize, 4096, 4097, 8191, 8192, 8193, 12287, 12288, 12289])),
+        46..=49 => Op::Fill(rng.usize_below(20000)),
+        50..=54 => Op::TryFill(near(rng)),
+        55..=57 => Op::TryFill(rng.usize_below(10)),
+        58..=78 => Op::U32,
+        _ => Op::U64,
+    }
+}
+
+fn n_class(n: usize) -> &'static str { match n { 0 => "0", 1..=7 => "1-7", 8..=4095 => "8-4095", 4096 => "4096", _ => ">4096" } }
+
+fn ops_case(cfg: &Cfg, grp: &str, case: u64, rng: &mut Rng, rep: &mut Report) {
+    let (seed, sclass) = gen_seed(rng);
+    rep.count("ops_seed_class", sclass);
+    let mut g1 = blake(seed); let mut g2 = blake(seed);
+    let mut model = Model::new(seed);
+    let nops = cfg.pick(300usize, 600);
+    let mut trace: Vec<Value> = vec![];
+    for step in 0..nops {
+        let cur = model.cursor();
+        let op = gen_op(rng, cur);
+        let inb = cur % BLOCK;
+        let (name, out1, out2): (&str, Vec<u8>, Vec<u8>) = match op {
+            Op::Fill(n) => { let mut a = vec![0xa5u8; n]; let mut b = vec![0x5au8; n]; let r = lib(|| { g1.fill_bytes(&mut a); g2.fill_bytes(&mut b); }); if let Err(p) = r { panic_v(cfg, grp, case, rep, "blake.fill_bytes", &format!("n={}", n_class(n)), &p, json!({"seed": hex(&seed), "cursor": cur, "n": n})); return; } ("fill_bytes", a, b) }
+            Op::TryFill(n) => { let mut a = vec![0xa5u8; n]; let mut b = vec![0x5au8; n]; let r = lib(|| { g1.try_fill_bytes(&mut a).is_ok() && g2.try_fill_bytes(&mut b).is_ok() }); match r { Err(p) => { panic_v(cfg, grp, case, rep, "blake.try_fill_bytes", &format!("n={}", n_class(n)), &p, json!({"seed": hex(&seed), "cursor": cur, "n": n})); return; } Ok(false) => { rep.violation(&format!("{}|blake.try_fill_bytes|any|error", P), format!("try_fill_bytes({}) returned Err", n), replay_json(cfg, grp, case, json!({"seed": hex(&seed)}))); return; } Ok(true) => {} } ("try_fill_bytes", a, b) }
+            Op::U32 => { match lib(|| (g1.next_u32(), g2.next_u32())) { Ok((a, b)) => ("next_u32", a.to_le_bytes().to_vec(), b.to_le_bytes().to_vec()), Err(p) => { panic_v(cfg, grp, case, rep, "blake.next_u32", &format!("cursor%4={}", cur % 4), &p, json!({"seed": hex(&seed), "cursor": cur})); return; } } }
+            Op::U64 => { match lib(|| (g1.next_u64(), g2.next_u64())) { Ok((a, b)) => ("next_u64", a.to_le_bytes().to_vec(), b.to_le_bytes().to_vec()), Err(p) => { panic_v(cfg, grp, case, rep, "blake.next_u64", &format!("cursor%8={}", cur % 8), &p, json!({"seed": hex(&seed), "cursor": cur})); return; } } }
+        };
+        // (i) determinism: same seed, same operation sequence
+        if out1 != out2 {
+            rep.violation(&format!("{}|blake.determinism|{}|value", P, name), format!("two generators with the same seed and operation sequence disagree at step {} ({} at cursor {}): {} vs {}", step, name, cur, hex(&out1[..out1.len().min(16)]), hex(&out2[..out2.len().min(16)])),
+                replay_json(cfg, grp, case, json!({"seed": hex(&seed), "step": step})));
+            return;
+        }
+        let class;
+        let res: Result<&'static str, String> = match op {
+            Op::Fill(n) | Op::TryFill(n) => {
+                let end = cur + n as u64;
+                let crossed = if n == 0 { 0 } else { (end - 1) / BLOCK - cur / BLOCK };
+                class = format!("{}|n={}|refills_inside={}|starts_at_refill={}|ends_at_refill={}", name, n_class(n), crossed.min(3), inb == 0, n > 0 && end % BLOCK == 0);
+                rep.count("byte_reads", &class);
+                model.fill(&out1).map(|_| "exact")
+            }
+            Op::U32 | Op::U64 => {
+                let w = if matches!(op, Op::U32) { 4u64 } else { 8 };
+                let place = if inb == 0 { "at_refill" } else if inb % w != 0 && inb > BLOCK - w { "alignment_skip_crosses_refill" } else if inb + w > BLOCK { "at_refill" } else { "inside_block" };
+                class = format!("{}|cursor%{}={}|{}", name, w, cur % w, place);
+                let r = model.word(w, &out1);
+                if let Ok(how) = r { rep.count("word_reads", &format!("{}|matched={}", class, how)); }
+                r
+            }
+        };
+        rep.eval(Some(&class));
+        if case == 0 && trace.len() < 14 { trace.push(json!({"op": format!("{:?}", op), "cursor_before": cur, "in_block": inb, "observed": hex(&out1[..out1.len().min(16)]), "len": out1.len(), "cursor_after": model.cursor()})); }
+        if let Err(detail) = res {
+            let (opn, cls) = match op {
+                Op::Fill(n) | Op::TryFill(n) => { let end = cur + n as u64; let crossed = if n == 0 { 0 } else { (end - 1) / BLOCK - cur / BLOCK }; (format!("blake.{}", name), if crossed > 0 { "straddles_refill" } else { "inside_block" }.to_string()) }
+                _ => (format!("blake.{}", name), if inb == 0 || inb + 8 > BLOCK { "near_refill" } else { "inside_block" }.to_string()),
+            };
+            rep.violation(&format!("{}|{}|{}|value", P, opn, cls), format!("step {}: {} ; seed {}", step, detail, hex(&seed)), replay_json(cfg, grp, case, json!({"seed": hex(&seed), "step": step, "op": format!("{:?}", op)})));
+            return;
+        }
+        if model.cands.len() > 1 { rep.count("model", "ambiguous_cursor_steps"); }
+    }
+    rep.max("ops_max_stream_offset", model.cursor() as f64);
+    if case == 0 { rep.sample(json!({"group": grp, "case": case, "seed": hex(&seed), "first_operations": trace})); }
+}
+
+fn panic_v(cfg: &Cfg, grp: &str, case: u64, rep: &mut Report, op: &str, class: &str, p: &Panicked, info: Value) {
+    rep.violation(&format!("{}|{}|{}|panic", P, op, class), format!("{} panicked: {} ; {}", op, p.0, info), replay_json(cfg, grp, case, info));
+}
+
+// ====================================================================== (1b) chunkings
+fn chunkings(rng: &mut Rng, total: usize) -> Vec<(&'static str, Vec<usize>, bool)> {
+    let mut out: Vec<(&'static str, Vec<usize>, bool)> = vec![("single_call", vec![total], false)];
+    out.push(("bytewise", vec![1; total], false));
+    let split = |rng: &mut Rng, f: &mut dyn FnMut(&mut Rng, usize) -> usize| -> Vec<usize> {
+        let mut v = vec![]; let mut done = 0;
+        while done < total { let c = f(rng, done).min(total - done); v.push(c); done += c; }
+        v
+    };
+    out.push(("random_1_17", split(rng, &mut |r, _| r.range(1, 17) as usize), false));
+    out.push(("mixed_with_zero_lengths", split(rng, &mut |r, _| *r.pick(&[0usize, 1, 2, 3, 5, 7, 8, 9, 13, 64, 100, 4095, 4096, 4097, 6000])), false));
+    out.push(("hug_refill", split(rng, &mut |r, done| { let d = 4096 - done % 4096; if d > 3 { d - r.range(1, 3) as usize } else { r.range(1, 6) as usize } }), false));
+    out.push(("chunks_4095", split(rng, &mut |_, _| 4095), false));
+    out.push(("chunks_4097", split(rng, &mut |_, _| 4097), false));
+    out.push(("try_fill_random", split(rng, &mut |r, _| r.range(0, 5000) as usize), true));
+    out.push(("two_parts", { let a = rng.usize_below(total + 1); vec![a, total - a] }, false));
+    out
+}
+
+fn chunk_case(cfg: &Cfg, grp: &str, case: u64, rng: &mut Rng, rep: &mut Report) {
+    let (seed, _) = gen_seed(rng);
+    let m = rng.range(1, 5) as usize;
+    let total = match rng.below(3) { 0 => m * 4096, 1 => (m * 4096 + rng.usize_below(35)).saturating_sub(17).max(1), _ => rng.range(1, 20000) as usize };
+    let want = Stream::new(seed).bytes(0, total);
+    let mut first: Option<Vec<u8>> = None;
+    for (name, chunks, try_fill) in chunkings(rng, total) {
+        let mut g = blake(seed);
+        let mut buf = vec![0x33u8; total];
+        let r = lib(|| { let mut at = 0; for &c in &chunks { if try_fill { g.try_fill_bytes(&mut buf[at..at + c]).unwrap(); } else { g.fill_bytes(&mut buf[at..at + c]); } at += c; } at });
+        rep.count("chunkings", name);
+        rep.eval(Some(&format!("chunk|{}|total%4096={}", name, if total % 4096 == 0 { "0" } else { "nz" })));
+        match r {
+            Err(p) => { panic_v(cfg, grp, case, rep, "blake.chunking", name, &p, json!({"seed": hex(&seed), "total": total})); continue; }
+            Ok(at) => debug_assert_eq!(at, total),
+        }
+        if buf != want {
+            let d = (0..total).find(|&i| buf[i] != want[i]).unwrap();
+            rep.violation(&format!("{}|blake.chunking|{}|value", P, name), format!("chunking {} of {} bytes differs from the BLAKE3 stream definition at offset {} (in-block {}): got {} expected {} ; first chunks {:?} ; seed {}", name, total, d, d % 4096, hex(&buf[d..(d + 8).min(total)]), hex(&want[d..(d + 8).min(total)]), &chunks[..chunks.len().min(8)], hex(&seed)),
+                replay_json(cfg, grp, case, json!({"seed": hex(&seed), "total": total, "chunking": name})));
+        }
+        match &first {
+            None => first = Some(buf),
+            Some(f) => if *f != buf {
+                let d = (0..total).find(|&i| buf[i] != f[i]).unwrap();
+                rep.violation(&format!("{}|blake.chunking_independence|{}|value", P, name), format!("chunking {} and a single call of {} bytes return different streams from offset {}", name, total, d), replay_json(cfg, grp, case, json!({"seed": hex(&seed), "total": total, "chunking": name})));
+            }
+        }
+    }
+    rep.max("chunking_max_total_bytes", total as f64);
+    if case == 0 { rep.sample(json!({"group": grp, "case": case, "seed": hex(&seed), "total_bytes": total, "chunkings_compared": 9, "stream_head": hex(&want[..want.len().min(32)]), "bytes_around_first_refill": if total > 4100 { hex(&want[4092..4100]) } else { String::new() }})); }
+}
+
+// ====================================================================== (1c) no repetition, (1d) seed sensitivity
+fn norepeat_case(cfg: &Cfg, grp: &str, case: u64, rng: &mut Rng, rep: &mut Report) {
+    let (seed, sclass) = if case == 0 { ([0u8; 64], "all_zero") } else if case == 1 { ([0xffu8; 64], "all_ff") } else { (rand_seed(rng), "random") };
+    let len: usize = ((cfg.pick(8usize, 256) << 20) as f64 * cfg.scale.min(1.0)) as usize / 4096 * 4096;
+    let len = len.max(4096 * 4);
+    let mut g = blake(seed);
+    let mut buf = vec![0u8; len];
+    let mut at = 0usize; let mut calls = 0u64;
+    let r = lib(|| { while at < len { let c = (rng.range(1, 2 << 20) as usize).min(len - at); g.fill_bytes(&mut buf[at..at + c]); at += c; calls += 1; } });
+    if let Err(p) = r { panic_v(cfg, grp, case, rep, "blake.fill_bytes", "long_stream", &p, json!({"seed": hex(&seed), "len": len})); return; }
+    // every block equals the model, no block repeats
+    let mut blocks: HashMap<u128, u64> = HashMap::new();
+    let mut bad_model = 0u64;
+    for (i, b) in buf.chunks_exact(4096).enumerate() {
+        let m = model_block(&seed, i as u64);
+        if m[..] != *b {
+            bad_model += 1;
+            if bad_model <= 1 { rep.violation(&format!("{}|blake.long_stream|block_vs_definition|value", P), format!("block {} of the stream (read in {} calls of random length) differs from BLAKE3-XOF(seed||{}): got {} expected {} ; seed {}", i, calls, i, hex(&b[..16]), hex(&m[..16]), hex(&seed)), replay_json(cfg, grp, case, json!({"seed": hex(&seed), "block": i}))); }
+        }
+        let h = u128::from_le_bytes(blake3::hash(b).as_bytes()[..16].try_into().unwrap());
+        if let Some(prev) = blocks.insert(h, i as u64) {
+            rep.violation(&format!("{}|blake.norepeat|block4096|repeat", P), format!("4096-byte block {} repeats block {} within {} bytes ; seed {}", i, prev, len, hex(&seed)), replay_json(cfg, grp, case, json!({"seed": hex(&seed), "blocks": [prev, i]})));
+            break;
+        }
+        rep.evals(1);
+    }
+    // no 16-byte aligned window repeats
+    let mut wins: Vec<u128> = buf.chunks_exact(16).map(|w| u128::from_le_bytes(w.try_into().unwrap())).collect();
+    let nwin = wins.len();
+    wins.sort_unstable();
+    let dup = wins.windows(2).find(|p| p[0] == p[1]).map(|p| p[0]);
+    drop(wins);
+    if let Some(v) = dup {
+        let pos: Vec<usize> = buf.chunks_exact(16).enumerate().filter(|(_, w)| u128::from_le_bytes((*w).try_into().unwrap()) == v).map(|(i, _)| i * 16).take(4).collect();
+        rep.violation(&format!("{}|blake.norepeat|window16|repeat", P), format!("16-byte aligned window {:032x} occurs at stream offsets {:?} within {} bytes ; seed {}", v, pos, len, hex(&seed)), replay_json(cfg, grp, case, json!({"seed": hex(&seed), "offsets": pos})));
+    }
+    rep.distinct_key(&format!("norepeat|{}", case));
+    rep.count("norepeat_seed_class", sclass);
+    rep.count_n("norepeat", "bytes_explored", len as u64);
+    rep.count_n("norepeat", "blocks_checked_distinct_and_vs_definition", (len / 4096) as u64);
+    rep.count_n("norepeat", "windows16_checked_distinct", nwin as u64);
+    rep.max("norepeat_bytes_per_seed", len as f64);
+    if case == 0 { rep.sample(json!({"group": grp, "case": case, "seed": hex(&seed), "bytes": len, "fill_calls": calls, "blocks": len / 4096, "windows": nwin, "block_repeats": 0, "window_repeat": dup.is_some(), "last_block_head": hex(&buf[len - 4096..len - 4080])})); }
+}
+
+fn bitflip_case(cfg: &Cfg, grp: &str, case: u64, rng: &mut Rng, rep: &mut Report) {
+    let (base, _) = gen_seed(rng);
+    let first = |s: [u8; 64]| -> Result<Vec<u8>, Panicked> { lib(|| { let mut g = blake(s); let mut b = vec![0u8; 4096]; g.fill_bytes(&mut b); b }) };
+    let Ok(b0) = first(base) else { return };
+    let mut seen: HashMap<Vec<u8>, i32> = HashMap::new();
+    seen.insert(b0.clone(), -1);
+    for bit in 0..512usize {
+        let mut s = base; s[bit / 8] ^= 1 << (bit % 8);
+        let Ok(b) = first(s) else { continue };
+        rep.eval(Some(&format!("bitflip|byte{}", bit / 8)));
+        if b[..] != model_block(&s, 0)[..] {
+            rep.violation(&format!("{}|blake.seed_bitflip|first_block_vs_definition|value", P), format!("first block for seed {} differs from the definition", hex(&s)), replay_json(cfg, grp, case, json!({"seed": hex(&s)})));
+        }
+        if let Some(prev) = seen.insert(b, bit as i32) {
+            rep.violation(&format!("{}|blake.seed_bitflip|first_block|repeat", P), format!("seeds differing in one bit give the same first block: base {} flipped bit {} vs {}", hex(&base), bit, if prev < 0 { "the base seed".to_string() } else { format!("flipped bit {}", prev) }), replay_json(cfg, grp, case, json!({"seed": hex(&base), "bit": bit, "other": prev})));
+        }
+    }
+    rep.count_n("seed_bitflip", "one_bit_neighbours_compared", 512);
+}
+
+// ====================================================================== (2) freshness
+fn hash_words(w: &[u64]) -> u128 {
+    let mut h = blake3::Hasher::new();
+    for x in w { h.update(&x.to_le_bytes()); }
+    u128::from_le_bytes(h.finalize().as_bytes()[..16].try_into().unwrap())
+}
+
+fn fresh_spec(rng: &mut Rng, ns: &[usize]) -> Option<Spec> {
+    let scheme = *rng.pick(&[SchemeType::BFV, SchemeType::BGV, SchemeType::CKKS]);
+    let n = *rng.pick(ns);
+    let logm = (2 * n).trailing_zeros();
+    let k = rng.range(1, 4) as usize;
+    let bits: Vec<u32> = (0..k).map(|_| rng.range(25.max(logm as u64 + 2), 55) as u32).collect();
+    let qs = coeff_primes(n, &bits, rng)?;
+    let t = if scheme == SchemeType::CKKS { 0 } else {
+        match rng.below(3) {
+            0 => ntt_primes(n, rng.range(logm as u64 + 1, 20) as u32, 4, 0).into_iter().find(|c| !qs.contains(c))?,
+            1 => 1u64 << rng.range(1, 16),
+            _ => { let mut c = rng.range(3, 1000) | 1; while !qs.iter().all(|&q| refm::gcd(q, c) == 1) { c += 2; } c }
+        }
+    };
+    Some(Spec { scheme, n, qs, t, special_flag: rng.chance(1, 4), expand: rng.chance(4, 5), family: "c16".into() })
+}
+
+/// (is a level switch part of a public-key encryption at this level?, dropped prime)
+fn switch_info(kit: &Kit, id: &ParmsID) -> (bool, u64) {
+    let cd = kit.ctx.get_context_data(id).unwrap();
+    match cd.prev_context_data() { Some(p) => (true, p.parms().coeff_modulus().last().unwrap().value()), None => (false, 0) }
+}
+/// worst-case |difference| of two public-key encryptions that share u (noise fresh): 42 per
+/// coefficient, times t in BGV, plus the rounding of a level switch
+fn pk_diff_bound(kit: &Kit, switched: bool, q_drop: u64) -> u64 {
+    let tfac = if kit.spec.scheme == SchemeType::BGV { kit.spec.t } else { 1 };
+    if switched { (42 / q_drop + 1).saturating_mul(tfac) } else { 42u64.saturating_mul(tfac) }
+}
+
+fn comp_coeff_form(kit: &Kit, ct: &Ciphertext, poly: usize, comp: usize) -> Vec<u64> {
+    let cd = kit.ctx.get_context_data(ct.parms_id()).unwrap();
+    let q = cd.parms().coeff_modulus()[comp].value();
+    let c = ct.poly_component(poly, comp);
+    if ct.is_ntt_form() { refm::intt_ref(c, cd.small_ntt_tables()[comp].root(), q) } else { c.to_vec() }
+}
+
+struct PkRec { op: u32, c1: Vec<u64> }
+struct Hist<'a> {
+    cfg: &'a Cfg, grp: &'a str, case: u64, os_entropy: bool,
+    seen: HashMap<(u8, u128), (u32, &'static str)>,
+    near: HashMap<(usize, u8, u64), Vec<u32>>,
+    pk: Vec<PkRec>,
+    log: Vec<Value>,
+}
+const NS_MASK: u8 = 0; const NS_SEED: u8 = 1; const NS_SK: u8 = 2; const NS_PAIR: u8 = 3;
+fn ns_name(ns: u8) -> &'static str { match ns { NS_MASK => "mask", NS_SEED => "seed", NS_SK => "secret_key", _ => "pk_pair" } }
+
+impl<'a> Hist<'a> {
+    fn observe(&mut self, rep: &mut Report, ns: u8, id: u128, label: &'static str, op: u32, entropy_bits: f64) {
+        if entropy_bits < 100.0 { rep.count("freshness_ids", &format!("{}|{}|skipped_entropy_below_100_bits", ns_name(ns), label)); rep.out_of_precondition += 1; return; }
+        rep.count("freshness_ids", &format!("{}|{}", ns_name(ns), label));
+        rep.evals(1);
+        if self.log.len() < 10 { self.log.push(json!({"op": op, "kind": label, "id_type": ns_name(ns), "id": format!("{:032x}", id)})); }
+        if let Some((pop, plabel)) = self.seen.insert((ns, id), (op, label)) {
+            let (a, b) = if plabel <= label { (plabel, label) } else { (label, plabel) };
+            rep.violation(&format!("{}|freshness.{}|{}~{}|repeat", P, ns_name(ns), a, b),
+                format!("{} identifier {:032x} of operation #{} ({}) was already produced by operation #{} ({}) on the same context{}", ns_name(ns), id, op, label, pop, plabel, if self.os_entropy { " (OS entropy, not replayable)" } else { "" }),
+                replay_json(self.cfg, self.grp, self.case, json!({"ops": [pop, op], "id": format!("{:032x}", id), "os_entropy": self.os_entropy})));
+        }
+    }
+    /// secret-key style object (ciphertext, public key, key-switch key component): mask = c1, optional seed
+    fn sym_ids(&mut self, rep: &mut Report, kit: &Kit, ct: &Ciphertext, label: &'static str, op: u32) {
+        let n = kit.n();
+        let q0 = kit.key_qs()[0] as f64;
+        let ent = n as f64 * q0.log2();
+        if ct.contains_seed() {
+            let seed_words: Vec<u64> = ct.poly(1)[1..9].to_vec();
+            self.observe(rep, NS_SEED, hash_words(&seed_words), label, op, 512.0);
+            match lib(|| ct.clone().expand_seed(&kit.ctx)) {
+                Ok(ex) => {
+                    // expansion is a function of the stored seed alone
+                    if let Ok(ex2) = lib(|| ct.clone().expand_seed(&kit.ctx)) { if ex2.data() != ex.data() { rep.violation(&format!("{}|expand_seed|{}|value", P, label), "expanding the same seeded object twice gives different polynomials".into(), replay_json(self.cfg, self.grp, self.case, json!({"op": op}))); } }
+                    self.observe(rep, NS_MASK, hash_words(ex.poly_component(1, 0)), label, op, ent);
+                }
+                Err(p) => panic_v(self.cfg, self.grp, self.case, rep, "expand_seed", label, &p, json!({"op": op})),
+            }
+        } else {
+            self.observe(rep, NS_MASK, hash_words(ct.poly_component(1, 0)), label, op, ent);
+        }
+    }
+    fn ksk_ids(&mut self, rep: &mut Report, kit: &Kit, k: &KSwitchKeys, label: &'static str, op: u32) {
+        let mut comps = 0;
+        for v in k.data() { for pk in v { self.sym_ids(rep, kit, pk.as_ciphertext(), label, op); comps += 1; } }
+        rep.max(&format!("components_per_{}", label), comps as f64);
+    }
+    /// public-key encryption: exact pair identifier, plus detection of a reused u under fresh noise
+    fn pk_ids(&mut self, rep: &mut Report, kit: &Kit, ct: &Ciphertext, label: &'static str, op: u32) {
+        let n = kit.n();
+        let lq: f64 = kit.ctx.get_context_data(ct.parms_id()).unwrap().parms().coeff_modulus().iter().map(|m| (m.value() as f64).log2()).sum();
+        let ent = (n as f64 * 9.0).min(2.0 * n as f64 * lq);
+        self.observe(rep, NS_PAIR, hash_words(ct.data()), label, op, ent);
+        // u reuse: c1 - c1' would be a small polynomial. Needs 3^N >> (#pairs) * 10^12.
+        if n < 64 { rep.count("pk_u_reuse_check", "skipped_N<64"); return; }
+        let (switched, q_drop) = switch_info(kit, ct.parms_id());
+        let bound = pk_diff_bound(kit, switched, q_drop);
+        let q0 = kit.key_qs()[0];
+        let w = (4 * bound as u128 + 4).next_power_of_two() as u64;
+        if (w as u128) * 16 > q0 as u128 { rep.count("pk_u_reuse_check", "skipped_bound_not_small_vs_q0"); rep.out_of_precondition += 1; return; }
+        let li = kit.level_of(ct.parms_id()).unwrap_or(99);
+        let c1 = comp_coeff_form(kit, ct, 1, 0);
+        let v = c1[0];
+        let mut keys = vec![(li, 0u8, v / w), (li, 1u8, (v + w / 2) / w)];
+        if v < w / 2 || v >= q0 - w / 2 { keys.push((li, 2u8, 0)); }
+        let me = self.pk.len() as u32;
+        let mut cands: Vec<u32> = vec![];
+        for k in &keys { if let Some(l) = self.near.get(k) { cands.extend(l); } }
+        cands.sort(); cands.dedup();
+        for &o in &cands {
+            let other = &self.pk[o as usize];
+            let close = c1.iter().zip(&other.c1).all(|(&a, &b)| { let d = refm::submod(a, b, q0); d <= bound || q0 - d <= bound });
+            if close {
+                rep.violation(&format!("{}|freshness.pk_mask|{}|u_reused", P, label), format!("public-key encryptions #{} and #{} at level {} have c1 polynomials that differ by at most {} in every coefficient (mod q0={}): the same u was used with different noise", other.op, op, li, bound, q0),
+                    replay_json(self.cfg, self.grp, self.case, json!({"ops": [other.op, op], "os_entropy": self.os_entropy})));
+            }
+        }
+        rep.count_n("pk_u_reuse_check", "candidate_pairs_verified", cands.len() as u64);
+        rep.count("pk_u_reuse_check", "encryptions_indexed");
+        for k in keys { self.near.entry(k).or_default().push(me); }
+        self.pk.push(PkRec { op, c1 });
+    }
+}
+
+fn some_plain(kit: &Kit, rng: &mut Rng, id: &ParmsID) -> Option<Plaintext> {
+    if kit.spec.scheme == SchemeType::CKKS {
+        let enc = kit.ckks.as_ref()?;
+        let v = rng.f64() * 8.0 - 4.0;
+        lib(|| enc.encode_f64_single_new(v, Some(*id), 1024.0)).ok()
+    } else {
+        let (_, c) = gen_plain(rng, kit.n(), kit.t());
+        Some(kit.plain_from_coeffs(&c))
+    }
+}
+
+fn history_case(cfg: &Cfg, grp: &str, case: u64, rng: &mut Rng, rep: &mut Report, nops: usize, os_entropy: bool) {
+    if os_entropy { heathcliff::verif::set_thread_entropy(None); }
+    let Some(spec) = fresh_spec(rng, &[64, 64, 64, 128]) else { rep.count("generator", "no_primes"); return };
+    let kit = match Kit::new(&spec) { Ok(k) => k, Err(_) => { rep.count("generator", "context_rejected"); return } };
+    rep.count("history_params", &format!("{}|n={}|k={}|levels={}|keyswitching={}|entropy={}", spec.scheme_name(), spec.n, spec.qs.len(), kit.levels.len(), kit.has_keyswitching(), if os_entropy { "os" } else { "hook" }));
+    let mut h = Hist { cfg, grp, case, os_entropy, seen: HashMap::new(), near: HashMap::new(), pk: vec![], log: vec![] };
+    let n = kit.n();
+    let sk_ent = n as f64 * 3f64.log2();
+    // the kit's own keys are part of the history
+    h.observe(rep, NS_SK, hash_words(kit.sk.data()), "secret_key", 0, sk_ent);
+    h.sym_ids(rep, &kit, kit.pk.as_ciphertext(), "public_key", 0);
+    let other = match lib(|| KeyGenerator::new(kit.ctx.clone())) { Ok(k) => k, Err(p) => { panic_v(cfg, grp, case, rep, "KeyGenerator::new", "valid_context", &p, spec.describe()); return } };
+    h.observe(rep, NS_SK, hash_words(other.secret_key().data()), "secret_key", 0, sk_ent);
+    let ks = kit.has_keyswitching();
+    for op in 1..=nops as u32 {
+        let level = rng.usize_below(kit.levels.len());
+        let id = *kit.levels[level].parms_id();
+        let first = *kit.ctx.first_parms_id();
+        let save = rng.bool();
+        let draws0 = heathcliff::verif::thread_entropy_draws();
+        let kind = rng.below(100);
+        let name: &'static str;
+        macro_rules! run { ($name:expr, $body:expr) => {{ match lib(|| $body) { Ok(v) => Some(v), Err(p) => { panic_v(cfg, grp, case, rep, $name, spec.scheme_name(), &p, json!({"params": spec.describe(), "op": op})); None } } }}; }
+        match kind {
+            0..=24 => { // public-key encryption
+                name = "pk_encrypt";
+                let ct = match rng.below(4) {
+                    0 => some_plain(&kit, rng, &first).and_then(|p| run!("encrypt_new", kit.enc.encrypt_new(&p))),
+                    1 => some_plain(&kit, rng, &first).and_then(|p| run!("encrypt", { let mut c = Ciphertext::new(); kit.enc.encrypt(&p, &mut c); c })),
+                    2 => run!("encrypt_zero_new_at", kit.enc.encrypt_zero_new_at(&id)),
+                    _ => run!("encrypt_zero_new", kit.enc.encrypt_zero_new()),
+                };
+                if let Some(ct) = ct { h.pk_ids(rep, &kit, &ct, name, op); }
+            }
+            25..=44 => { // secret-key encryption, mask stored in full
+                name = "sk_encrypt";
+                let ct = match rng.below(3) {
+                    0 => some_plain(&kit, rng, &first).and_then(|p| run!("encrypt_symmetric", { let mut c = Ciphertext::new(); kit.enc.encrypt_symmetric(&p, &mut c); c })),
+                    1 => run!("encrypt_zero_symmetric_at", { let mut c = Ciphertext::new(); kit.enc.encrypt_zero_symmetric_at(&id, &mut c); c }),
+                    _ => run!("encrypt_zero_symmetric", { let mut c = Ciphertext::new(); kit.enc.encrypt_zero_symmetric(&mut c); c }),
+                };
+                if let Some(ct) = ct { h.sym_ids(rep, &kit, &ct, name, op); }
+            }
+            45..=64 => { // secret-key encryption, seeded
+                name = "sk_encrypt_seeded";
+                let ct = match rng.below(3) {
+                    0 => some_plain(&kit, rng, &first).and_then(|p| run!("encrypt_symmetric_new", kit.enc.encrypt_symmetric_new(&p))),
+                    1 => run!("encrypt_zero_symmetric_new_at", kit.enc.encrypt_zero_symmetric_new_at(&id)),
+                    _ => run!("encrypt_zero_symmetric_new", kit.enc.encrypt_zero_symmetric_new()),
+                };
+                if let Some(ct) = ct {
+                    if !ct.contains_seed() { rep.violation(&format!("{}|seeded_encrypt|{}|seed_missing", P, spec.scheme_name()), format!("seeded symmetric encryption returned no seed although the polynomial has {} words", n * kit.level_qs(level).len()), replay_json(cfg, grp, case, json!({"params": spec.describe(), "op": op}))); }
+                    h.sym_ids(rep, &kit, &ct, name, op);
+                }
+            }
+            65..=69 => { // a new key generator: fresh secret key (and a public key under it)
+                name = "keygen_new";
+                if let Some(kg) = run!("KeyGenerator::new", KeyGenerator::new(kit.ctx.clone())) {
+                    h.observe(rep, NS_SK, hash_words(kg.secret_key().data()), "secret_key", op, sk_ent);
+                    if let Some(pk) = run!("create_public_key", kg.create_public_key(save)) { h.sym_ids(rep, &kit, pk.as_ciphertext(), "public_key", op); }
+                }
+            }
+            70..=77 => {
+                name = "public_key";
+                if let Some(pk) = run!("create_public_key", kit.keygen.create_public_key(save)) { h.sym_ids(rep, &kit, pk.as_ciphertext(), name, op); }
+            }
+            78..=84 if ks => {
+                name = "relin_keys";
+                if let Some(k) = run!("create_relin_keys", kit.keygen.create_relin_keys(save)) { h.ksk_ids(rep, &kit, k.as_kswitch_keys(), name, op); }
+            }
+            85..=92 if ks => {
+                name = "galois_keys";
+                let k = if rng.chance(1, 10) { run!("create_galois_keys", kit.keygen.create_galois_keys(save)) } else {
+                    let elts: Vec<usize> = (0..rng.range(1, 3)).map(|_| rng.usize_below(n) * 2 + 1).collect();
+                    run!("create_galois_keys_from_elts", kit.keygen.create_galois_keys_from_elts(&elts, save))
+                };
+                if let Some(k) = k { h.ksk_ids(rep, &kit, k.as_kswitch_keys(), name, op); }
+            }
+            93..=99 if ks => {
+                name = "keyswitching_key";
+                if let Some(k) = run!("create_keyswitching_key", kit.keygen.create_keyswitching_key(other.secret_key(), save)) { h.ksk_ids(rep, &kit, &k, name, op); }
+            }
+            _ => { // no key switching on a single-prime context: more encryptions
+                name = "sk_encrypt";
+                if let Some(ct) = run!("encrypt_zero_symmetric_at", { let mut c = Ciphertext::new(); kit.enc.encrypt_zero_symmetric_at(&id, &mut c); c }) { h.sym_ids(rep, &kit, &ct, name, op); }
+            }
+        }
+        rep.count(if os_entropy { "history_ops_os_entropy" } else { "history_ops" }, &format!("{}|{}", spec.scheme_name(), name));
+        if !os_entropy {
+            let d = heathcliff::verif::thread_entropy_draws() - draws0;
+            rep.min(&format!("generators_drawn_per_{}", name), d as f64);
+            rep.max(&format!("generators_drawn_per_{}", name), d as f64);
+        }
+        rep.distinct_key(&format!("hist|{}|{}|{}|{}", spec.scheme_name(), name, kit.has_keyswitching(), os_entropy));
+    }
+    rep.max(if os_entropy { "history_identifiers_os_entropy" } else { "history_identifiers" }, h.seen.len() as f64);
+    rep.max("history_length_ops", nops as f64);
+    if case == 0 { rep.sample(json!({"group": grp, "case": case, "params": spec.describe(), "operations": nops, "distinct_identifiers": h.seen.len(), "pk_encryptions_indexed_for_u_reuse": h.pk.len(), "first_identifiers": h.log})); }
+}
+
+// ====================================================================== (2b) explicit generators
+/// two generators in the same (not necessarily fresh) state
+fn twin_generators(rng: &mut Rng) -> ([u8; 64], Vec<String>, BlakeRNG, BlakeRNG) {
+    let seed = rand_seed(rng);
+    let (mut a, mut b) = (blake(seed), blake(seed));
+    let mut pre = vec![];
+    for _ in 0..rng.below(4) {
+        match rng.below(3) {
+            0 => { let n = rng.usize_below(5000); let mut x = vec![0u8; n]; a.fill_bytes(&mut x); b.fill_bytes(&mut x); pre.push(format!("fill_bytes({})", n)); }
+            1 => { a.next_u32(); b.next_u32(); pre.push("next_u32".into()); }
+            _ => { a.next_u64(); b.next_u64(); pre.push("next_u64".into()); }
+        }
+    }
+    (seed, pre, a, b)
+}
+
+fn level_ids(kit: &Kit) -> Vec<ParmsID> {
+    let mut v: Vec<ParmsID> = kit.levels.iter().map(|l| *l.parms_id()).collect();
+    let key = *kit.ctx.key_parms_id();
+    if !v.contains(&key) { v.insert(0, key); }
+    v
+}
+
+fn explicit_case(cfg: &Cfg, grp: &str, case: u64, rng: &mut Rng, rep: &mut Report) {
+    let Some(spec) = fresh_spec(rng, &[4, 8, 16, 32, 32, 64]) else { rep.count("generator", "no_primes"); return };
+    let kit = match Kit::new(&spec) { Ok(k) => k, Err(_) => { rep.count("generator", "context_rejected"); return } };
+    let n = kit.n();
+    let scheme = spec.scheme_name();
+    let all_ids = level_ids(&kit);
+    let first = *kit.ctx.first_parms_id();
+    let ntt_default = spec.scheme != SchemeType::BFV;
+    let noise_decidable = n >= 32; // P(two fresh noise polynomials coincide) <= 0.087^N
+    let mut sample_done = false;
+    // ---------------- secret-key family: c1 identical word for word, c0 fresh
+    for ep in 0..8u32 {
+        let (seed, pre, mut g1, mut g2) = twin_generators(rng);
+        let id = *rng.pick(&all_ids);
+        let data_id = *kit.levels[rng.usize_below(kit.levels.len())].parms_id();
+        let is_ntt = rng.bool(); let save = rng.bool();
+        let plain = some_plain(&kit, rng, &first);
+        let epn: &'static str = ["rlwe::symmetric_with_c1_prng", "encrypt_symmetric_with_u_prng", "encrypt_symmetric_new_with_u_prng", "encrypt_zero_symmetric_with_u_prng", "encrypt_zero_symmetric_new_with_u_prng", "encrypt_zero_symmetric_at_with_u_prng", "encrypt_zero_symmetric_new_at_with_u_prng", "create_public_key_with_u_prng"][ep as usize];
+        if (ep == 1 || ep == 2) && plain.is_none() { continue; }
+        let call = |g: &mut BlakeRNG| -> Result<Ciphertext, Panicked> {
+            lib(|| match ep {
+                0 => { let mut c = Ciphertext::new(); encrypt_zero::symmetric_with_c1_prng(&kit.sk, &kit.ctx, &id, is_ntt, g, save, &mut c); c }
+                1 => { let mut c = Ciphertext::new(); kit.enc.encrypt_symmetric_with_u_prng(plain.as_ref().unwrap(), g, &mut c); c }
+                2 => kit.enc.encrypt_symmetric_new_with_u_prng(plain.as_ref().unwrap(), g),
+                3 => { let mut c = Ciphertext::new(); kit.enc.encrypt_zero_symmetric_with_u_prng(g, &mut c); c }
+                4 => kit.enc.encrypt_zero_symmetric_new_with_u_prng(g),
+                5 => { let mut c = Ciphertext::new(); kit.enc.encrypt_zero_symmetric_at_with_u_prng(&data_id, g, &mut c); c }
+                6 => kit.enc.encrypt_zero_symmetric_new_at_with_u_prng(&data_id, g),
+                _ => kit.keygen.create_public_key_with_u_prng(save, g).as_ciphertext().clone(),
+            })
+        };
+        let (r1, r2) = (call(&mut g1), call(&mut g2));
+        let info = json!({"params": spec.describe(), "entry_point": epn, "generator_seed": hex(&seed), "generator_prefix_ops": pre, "is_ntt": is_ntt, "save_seed": save});
+        let (a, b) = match (r1, r2) { (Ok(a), Ok(b)) => (a, b), (Err(p), _) | (_, Err(p)) => { panic_v(cfg, grp, case, rep, epn, scheme, &p, info); continue; } };
+        let seeded = a.contains_seed();
+        rep.count("explicit_generator", &format!("{}|{}|seeded={}", epn, scheme, seeded));
+        rep.eval(Some(&format!("explicit|{}|{}|{}|n>=32:{}", epn, scheme, seeded, noise_decidable)));
+        let mask_equal = a.size() == 2 && b.size() == 2 && a.parms_id() == b.parms_id() && a.poly(1) == b.poly(1) && seeded == b.contains_seed();
+        if !mask_equal {
+            rep.violation(&format!("{}|explicit_generator.mask|{}|value", P, epn), format!("two generators in the same state gave different c1 (seeded={}): first words {:?} vs {:?} ; {}", seeded, &a.poly(1)[..a.poly(1).len().min(3)], &b.poly(1)[..b.poly(1).len().min(3)], info), replay_json(cfg, grp, case, info.clone()));
+        } else if seeded {
+            // the expanded masks agree as well, and the stored seed is the next 64 bytes of the generator (informational)
+            if let (Ok(ea), Ok(eb)) = (lib(|| a.clone().expand_seed(&kit.ctx)), lib(|| b.clone().expand_seed(&kit.ctx))) {
+                if ea.poly(1) != eb.poly(1) { rep.violation(&format!("{}|explicit_generator.expanded_mask|{}|value", P, epn), format!("identical stored seeds expand to different c1 ; {}", info), replay_json(cfg, grp, case, info.clone())); }
+            }
+        }
+        // the two generators are still in the same state afterwards
+        let (mut t1, mut t2) = ([0u8; 24], [0u8; 24]);
+        g1.fill_bytes(&mut t1); g2.fill_bytes(&mut t2);
+        if t1 != t2 { rep.violation(&format!("{}|explicit_generator.state_after|{}|value", P, epn), format!("generators diverge after the call ; {}", info), replay_json(cfg, grp, case, info.clone())); }
+        // fresh noise
+        if noise_decidable {
+            if a.poly(0) == b.poly(0) { rep.violation(&format!("{}|explicit_generator.noise|{}|reused", P, epn), format!("c0 identical in two encryptions with the same mask generator: the noise was not drawn fresh ; {}", info), replay_json(cfg, grp, case, info.clone())); }
+        } else { rep.out_of_precondition += 1; }
+        if !sample_done && case == 0 { sample_done = true; rep.sample(json!({"group": grp, "case": case, "entry_point": epn, "params": spec.describe(), "generator_seed": hex(&seed), "prefix_ops": pre, "seeded": seeded, "c1_first_words": [&a.poly(1)[..a.poly(1).len().min(4)], &b.poly(1)[..b.poly(1).len().min(4)]], "c0_first_words": [&a.poly(0)[..2.min(a.poly(0).len())], &b.poly(0)[..2.min(b.poly(0).len())]]})); }
+    }
+    // ---------------- public-key family: results differ only by fresh noise
+    for ep in 0..7u32 {
+        let (seed, pre, mut g1, mut g2) = twin_generators(rng);
+        let id = *rng.pick(&all_ids);
+        let data_id = *kit.levels[rng.usize_below(kit.levels.len())].parms_id();
+        let is_ntt = rng.bool();
+        let plain = some_plain(&kit, rng, &first);
+        let epn: &'static str = ["rlwe::asymmetric_with_u_prng", "encrypt_with_u_prng", "encrypt_new_with_u_prng", "encrypt_zero_with_u_prng", "encrypt_zero_new_with_u_prng", "encrypt_zero_at_with_u_prng", "encrypt_zero_new_at_with_u_prng"][ep as usize];
+        if (ep == 1 || ep == 2) && plain.is_none() { continue; }
+        let call = |g: &mut BlakeRNG| -> Result<Ciphertext, Panicked> {
+            lib(|| match ep {
+                0 => { let mut c = Ciphertext::new(); encrypt_zero::asymmetric_with_u_prng(&kit.pk, &kit.ctx, &id, is_ntt, g, &mut c); c }
+                1 => { let mut c = Ciphertext::new(); kit.enc.encrypt_with_u_prng(plain.as_ref().unwrap(), g, &mut c); c }
+                2 => kit.enc.encrypt_new_with_u_prng(plain.as_ref().unwrap(), g),
+                3 => { let mut c = Ciphertext::new(); kit.enc.encrypt_zero_with_u_prng(g, &mut c); c }
+                4 => kit.enc.encrypt_zero_new_with_u_prng(g),
+                5 => { let mut c = Ciphertext::new(); kit.enc.encrypt_zero_at_with_u_prng(&data_id, g, &mut c); c }
+                _ => kit.enc.encrypt_zero_new_at_with_u_prng(&data_id, g),
+            })
+        };
+        let (r1, r2) = (call(&mut g1), call(&mut g2));
+        let info = json!({"params": spec.describe(), "entry_point": epn, "generator_seed": hex(&seed), "generator_prefix_ops": pre, "is_ntt": is_ntt});
+        let (a, b) = match (r1, r2) { (Ok(a), Ok(b)) => (a, b), (Err(p), _) | (_, Err(p)) => { panic_v(cfg, grp, case, rep, epn, scheme, &p, info); continue; } };
+        let _ = ntt_default;
+        if a.size() != 2 || b.size() != 2 || a.parms_id() != b.parms_id() || a.is_ntt_form() != b.is_ntt_form() {
+            rep.violation(&format!("{}|explicit_generator.pk_shape|{}|value", P, epn), format!("results of different shape ; {}", info), replay_json(cfg, grp, case, info.clone())); continue;
+        }
+        let (switched, q_drop) = if ep == 0 { (false, 0) } else { switch_info(&kit, a.parms_id()) };
+        let bound = pk_diff_bound(&kit, switched, q_drop);
+        rep.count("explicit_generator", &format!("{}|{}|level_switch={}", epn, scheme, switched));
+        rep.eval(Some(&format!("explicit|{}|{}|{}|n>=32:{}", epn, scheme, switched, noise_decidable)));
+        let cd = kit.ctx.get_context_data(a.parms_id()).unwrap();
+        let qs: Vec<u64> = cd.parms().coeff_modulus().iter().map(|m| m.value()).collect();
+        let mut worst = 0u64; let mut bad: Option<String> = None; let mut decidable = 0;
+        'outer: for j in 0..2 {
+            let mut reference: Option<Vec<i128>> = None;
+            for (i, &q) in qs.iter().enumerate() {
+                if (bound as u128) * 2 >= q as u128 { rep.out_of_precondition += 1; continue; }
+                decidable += 1;
+                let (ca, cb) = (comp_coeff_form(&kit, &a, j, i), comp_coeff_form(&kit, &b, j, i));
+                let d: Vec<i128> = ca.iter().zip(&cb).map(|(&x, &y)| { let d = refm::submod(x, y, q); if d > q / 2 { d as i128 - q as i128 } else { d as i128 } }).collect();
+                for (x, &v) in d.iter().enumerate() {
+                    worst = worst.max(v.unsigned_abs() as u64);
+                    if v.unsigned_abs() > bound as u128 { bad = Some(format!("c{}[{}] mod q_{}={} differs by {} > {}", j, x, i, q, v, bound)); break 'outer; }
+                    if spec.scheme == SchemeType::BGV && v % spec.t as i128 != 0 { bad = Some(format!("c{}[{}] mod q_{}={} differs by {} which is not a multiple of t={}", j, x, i, q, v, spec.t)); break 'outer; }
+                }
+                match &reference { None => reference = Some(d), Some(r) => if *r != d { bad = Some(format!("difference polynomial of c{} is not the same integer polynomial in components 0 and {}", j, i)); break 'outer; } }
+            }
+        }
+        if decidable > 0 { rep.max(&format!("pk_same_u_max_difference_over_bound_{}", scheme), worst as f64 / bound as f64); }
+        if let Some(why) = bad {
+            rep.violation(&format!("{}|explicit_generator.pk_mask|{}|value", P, epn), format!("two public-key encryptions with mask generators in the same state do not differ by fresh noise only: {} (level switch {}) ; {}", why, switched, info), replay_json(cfg, grp, case, info.clone()));
+        }
+        let (mut t1, mut t2) = ([0u8; 24], [0u8; 24]);
+        g1.fill_bytes(&mut t1); g2.fill_bytes(&mut t2);
+        if t1 != t2 { rep.violation(&format!("{}|explicit_generator.state_after|{}|value", P, epn), format!("generators diverge after the call ; {}", info), replay_json(cfg, grp, case, info.clone())); }
+        // after a level switch the fresh noise (|e| <= 21) is divided by the dropped prime and rounded away, so the two
+        // results legitimately coincide in almost every coefficient: freshness of the noise is only decidable without a switch
+        if switched { rep.count("explicit_generator_noise", "pk_after_level_switch_not_decidable"); rep.out_of_precondition += 1; }
+        else if noise_decidable {
+            rep.count("explicit_generator_noise", "pk_fresh_noise_asserted");
+            if a.data() == b.data() { rep.violation(&format!("{}|explicit_generator.noise|{}|reused", P, epn), format!("identical ciphertexts from two public-key encryptions with the same mask generator: the noise was not drawn fresh ; {}", info), replay_json(cfg, grp, case, info.clone())); }
+        } else { rep.out_of_precondition += 1; }
+    }
+    rep.count("explicit_params", &format!("{}|n={}|k={}|levels={}", scheme, n, spec.qs.len(), kit.levels.len()));
+}
+
+// ====================================================================== (2c) factory
+fn factory_case(cfg: &Cfg, grp: &str, case: u64, rng: &mut Rng, rep: &mut Report, os_entropy: bool) {
+    if os_entropy { heathcliff::verif::set_thread_entropy(None); }
+    let count = cfg.n(10_000, 10_000);
+    let factory = BlakeRNGFactory::new(); // what HeContext::new installs as its generator factory
+    let mut seen: HashMap<[u8; 64], usize> = HashMap::new();
+    let mut first_heads: Vec<String> = vec![];
+    for i in 0..count {
+        let head = match lib(|| { let mut g = factory.get_rng(); let mut b = [0u8; 64]; g.fill_bytes(&mut b); b }) { Ok(h) => h, Err(p) => { panic_v(cfg, grp, case, rep, "BlakeRNGFactory::get_rng", "entropy", &p, json!({"i": i})); return; } };
+        if i < 3 { first_heads.push(hex(&head[..16])); }
+        rep.evals(1);
+        if let Some(prev) = seen.insert(head, i) {
+            rep.violation(&format!("{}|factory|first64|repeat", P), format!("generators #{} and #{} obtained from one entropy-seeded factory start with the same 64 bytes {} ({})", prev, i, hex(&head[..16]), if os_entropy { "OS entropy" } else { "hooked entropy" }), replay_json(cfg, grp, case, json!({"i": [prev, i], "os_entropy": os_entropy})));
+            break;
+        }
+    }
+    rep.count_n("factory", if os_entropy { "generators_os_entropy" } else { "generators_hooked_entropy" }, seen.len() as u64);
+    rep.distinct_key(&format!("factory|{}", os_entropy));
+    // a seeded factory hands out generators in the state defined by its seed
+    let s = rand_seed(rng);
+    let f2 = BlakeRNGFactory::from_seed(PRNGSeed(s));
+    let want = Stream::new(s).bytes(0, 100);
+    for _ in 0..3 {
+        if let Ok(got) = lib(|| { let mut g = f2.get_rng(); let mut b = vec![0u8; 100]; g.fill_bytes(&mut b); b }) {
+            rep.count("factory", "seeded_factory_vs_definition");
+            if got != want { rep.violation(&format!("{}|factory|from_seed|value", P), format!("generator of a seeded factory does not produce the stream of its seed {}", hex(&s)), replay_json(cfg, grp, case, json!({"seed": hex(&s)}))); }
+        }
+    }
+    if case == 0 && !os_entropy { rep.note(&format!("factory sample: first 16 bytes of the first three hooked generators: {:?}", first_heads)); }
+}
+
+// ====================================================================== statistics
+fn ln_gamma(x: f64) -> f64 {
+    // Lanczos (g = 7, n = 9)
+    const C: [f64; 9] = [0.99999999999980993, 676.5203681218851, -1259.1392167224028, 771.32342877765313, -176.61502916214059, 12.507343278686905, -0.13857109526572012, 9.9843695780195716e-6, 1.5056327351493116e-7];
+    if x < 0.5 { return (std::f64::consts::PI / (std::f64::consts::PI * x).sin()).ln() - ln_gamma(1.0 - x); }
+    let x = x - 1.0;
+    let mut a = C[0];
+    let t = x + 7.5;
+    for (i, c) in C.iter().enumerate().skip(1) { a += c / (x + i as f64); }
+    0.5 * (2.0 * std::f64::consts::PI).ln() + (x + 0.5) * t.ln() - t + a.ln()
+}
+/// regularized upper incomplete gamma Q(a, x)
+fn gamma_q(a: f64, x: f64) -> f64 {
+    if x <= 0.0 { return 1.0; }
+    if x < a + 1.0 {
+        let (mut sum, mut term, mut ap) = (1.0 / a, 1.0 / a, a);
+        for _ in 0..10000 { ap += 1.0; term *= x / ap; sum += term; if term.abs() < sum.abs() * 1e-16 { break; } }
+        (1.0 - sum * (-x + a * x.ln() - ln_gamma(a)).exp()).max(0.0)
+    } else {
+        let tiny = 1e-300;
+        let mut b = x + 1.0 - a; let mut c = 1.0 / tiny; let mut d = 1.0 / b; let mut h = d;
+        for i in 1..10000 {
+            let an = -(i as f64) * (i as f64 - a);
+            b += 2.0;
+            d = an * d + b; if d.abs() < tiny { d = tiny; }
+            c = b + an / c; if c.abs() < tiny { c = tiny; }
+            d = 1.0 / d;
+            let del = d * c; h *= del;
+            if (del - 1.0).abs() < 1e-16 { break; }
+        }
+        (-x + a * x.ln() - ln_gamma(a)).exp() * h
+    }
+}
+fn chi2_p(stat: f64, df: usize) -> f64 { gamma_q(df as f64 / 2.0, stat / 2.0) }
+fn normal_two_sided_p(z: f64) -> f64 { gamma_q(0.5, z * z / 2.0) }
+
+/// Pearson statistic with categories of expected count < 100 pooled; returns (statistic, degrees of freedom)
+fn pearson(obs: &[u64], prob: &[f64], n: u64) -> Option<(f64, usize)> {
+    let mut bins: Vec<(f64, f64)> = vec![]; // (observed, expected)
+    let mut pool = (0.0, 0.0);
+    for (o, p) in obs.iter().zip(prob) {
+        let e = p * n as f64;
+        if e >= 100.0 { bins.push((*o as f64, e)); } else { pool.0 += *o as f64; pool.1 += e; }
+    }
+    if pool.1 >= 100.0 { bins.push(pool); } else if pool.1 > 0.0 || pool.0 > 0.0 {
+        let i = (0..bins.len()).min_by(|&a, &b| bins[a].1.partial_cmp(&bins[b].1).unwrap())?;
+        bins[i].0 += pool.0; bins[i].1 += pool.1;
+    }
+    if bins.len() < 2 { return None; }
+    Some((bins.iter().map(|(o, e)| (o - e) * (o - e) / e).sum(), bins.len() - 1))
+}
+
+// ====================================================================== (3) samplers
+const ERR_BOUND: i64 = 21;
+fn binom42(k: u64) -> u64 { let mut r = 1u128; for i in 0..k.min(42 - k) { r = r * (42 - i) as u128 / (i + 1) as u128; } r as u64 }
+/// P(e = v) for e = Bin(21,1/2) - Bin(21,1/2), v in [-21,21]
+fn cbd_pmf(v: i64) -> f64 { binom42((v + 21) as u64) as f64 / (1u64 << 42) as f64 }
+
+/// smallest integer v in [-b, b] with v = r_j (mod q_j) for all j; None if there is none
+fn decode_small(res: &[u64], qs: &[u64], pivot: usize, b: i64) -> Option<i64> {
+    let q = qs[pivot] as i128; let r = res[pivot] as i128;
+    // candidates r - m*q in [-b, b], ascending
+    let mut v = r - ((r + b as i128) / q) * q;
+    while v <= b as i128 {
+        if v >= -(b as i128) && res.iter().zip(qs).all(|(&rj, &qj)| (v.rem_euclid(qj as i128)) as u64 == rj) { return Some(v as i64); }
+        v += q;
+    }
+    None
+}
+
+fn next_prime(mut x: u64) -> u64 { if x < 2 { return 2; } if x % 2 == 0 && x != 2 { x += 1; } while !refm::is_prime(x) { x += 2; } x }
+
+fn sampler_params(rng: &mut Rng) -> Option<(usize, Vec<u64>, &'static str)> {
+    let k = rng.range(1, 6) as usize;
+    let fam = rng.below(4);
+    let add = |v: &mut Vec<u64>, q: u64| -> bool { if v.contains(&q) || q >> 61 != 0 || q < 2 { false } else { v.push(q); true } };
+    match fam {
+        0 => { // primes that a context accepts for this degree, any size from the smallest
+            let n = 1usize << rng.range(1, 10);
+            let logm = (2 * n).trailing_zeros();
+            let bits: Vec<u32> = (0..k).map(|_| rng.range((logm + 1).max(3) as u64, 60) as u32).collect();
+            Some((n, coeff_primes(n, &bits, rng)?, "context_primes_any_size"))
+        }
+        1 => { // tiny NTT primes (< 2*21+1 and a little above) of degrees 2,4,8 mixed with larger ones
+            let n = *rng.pick(&[2usize, 2, 4, 8]);
+            let tiny: Vec<u64> = (3..70u64).filter(|&p| refm::is_prime(p) && p % (2 * n as u64) == 1).collect();
+            let mut v = vec![];
+            let nt = rng.range(1, k.min(tiny.len()) as u64) as usize;
+            let mut guard = 0;
+            while v.len() < nt && guard < 100 { add(&mut v, *rng.pick(&tiny)); guard += 1; }
+            while v.len() < k && guard < 200 { let b = rng.range(8, 60) as u32; if let Some(c) = ntt_primes(n, b, 3, rng.usize_below(2)).first() { add(&mut v, *c); } guard += 1; }
+            rng.shuffle(&mut v);
+            Some((n, v, "tiny_ntt_primes"))
+        }
+        2 => { // arbitrary tiny primes (parameter objects a context would reject), incl. 2 and 3
+            let n = 1usize << rng.range(1, 10);
+            let tiny = [2u64, 3, 5, 7, 11, 13, 17, 19, 23, 29, 31, 37, 41, 43, 47, 53, 59, 61, 67];
+            let mut v = vec![]; let mut guard = 0;
+            while v.len() < k && guard < 200 { if rng.chance(3, 4) { add(&mut v, *rng.pick(&tiny)); } else { let b = rng.range(7, 60) as u32; let c = next_prime(rng.bits(b) | (1 << (b - 1)) | 1); add(&mut v, c); } guard += 1; }
+            Some((n, v, "parms_only_tiny_primes"))
+        }
+        _ => { // large arbitrary primes including 2^61 - 1
+            let n = 1usize << rng.range(1, 10);
+            let mut v = vec![]; let mut guard = 0;
+            while v.len() < k && guard < 200 { if rng.chance(1, 6) { add(&mut v, (1u64 << 61) - 1); } else { let b = rng.range(40, 61) as u32; let c = next_prime((rng.bits(b) | (1 << (b - 1)) | 1).min((1 << 61) - 200)); add(&mut v, c); } guard += 1; }
+            Some((n, v, "parms_only_large_primes"))
+        }
+    }
+}
+
+fn sampler_case(cfg: &Cfg, grp: &str, case: u64, rng: &mut Rng, rep: &mut Report) {
+    let Some((n, qs, fam)) = sampler_params(rng) else { rep.count("generator", "no_primes"); return };
+    if qs.is_empty() { return; }
+    let k = qs.len();
+    let mods: Vec<Modulus> = match lib(|| qs.iter().map(|&q| Modulus::new(q)).collect()) { Ok(m) => m, Err(_) => { rep.count("generator", "modulus_rejected"); return } };
+    let parms = match lib(|| EncryptionParameters::new(SchemeType::BFV).set_poly_modulus_degree(n).set_coeff_modulus(&mods)) { Ok(p) => p, Err(_) => { rep.count("generator", "parms_rejected"); return } };
+    let seed = rand_seed(rng);
+    let draws: usize = 1 << 20;
+    let calls = (draws + n - 1) / n;
+    let total = (calls * n) as u64;
+    let pivot = (0..k).max_by_key(|&j| qs[j]).unwrap();
+    let qmin = *qs.iter().min().unwrap();
+    let tiny = if qmin < 43 { "has_prime_below_43" } else { "all_primes_above_42" };
+    rep.count("sampler_params", &format!("{}|k={}|{}", fam, k, tiny));
+    rep.count("sampler_degree", &format!("n={}", n));
+    let info = json!({"n": n, "qs": qs, "family": fam, "generator_seed": hex(&seed)});
+    let kcls = format!("k={},{}", k, tiny);
+    let mut dest = vec![0u64; n * k];
+    let mut res = vec![0u64; k];
+    // ---------------------------------------------------------------- ternary
+    {
+        let mut g = blake(seed);
+        let mut counts = [0u64; 3]; let mut failed = false;
+        'tern: for _ in 0..calls {
+            dest.iter_mut().for_each(|x| *x = u64::MAX);
+            if let Err(p) = lib(|| sample::ternary(&mut g, &parms, &mut dest)) { panic_v(cfg, grp, case, rep, "sampler.ternary", &kcls, &p, info.clone()); failed = true; break; }
+            for i in 0..n {
+                for j in 0..k { res[j] = dest[i + j * n]; }
+                if let Some(j) = (0..k).find(|&j| res[j] >= qs[j]) {
+                    rep.violation(&format!("{}|sampler.ternary|{}|out_of_range", P, kcls), format!("ternary sample component {} = {} is not below q_j = {} ; {}", j, res[j], qs[j], info), replay_json(cfg, grp, case, info.clone())); failed = true; break 'tern;
+                }
+                match decode_small(&res, &qs, pivot, 1) {
+                    Some(v) => counts[(v + 1) as usize] += 1,
+                    None => { rep.violation(&format!("{}|sampler.ternary|{}|rns_mismatch", P, kcls), format!("ternary coefficient {} has residues {:?} modulo {:?}: no common value in {{-1,0,1}} ; {}", i, res, qs, info), replay_json(cfg, grp, case, info.clone())); failed = true; break 'tern; }
+                }
+            }
+        }
+        if !failed {
+            // classes: values that the residues cannot tell apart (only q = 2 merges -1 and 1) are one category
+            let mut prob = [0.0f64; 3];
+            for v in -1..=1i64 { let r: Vec<u64> = qs.iter().map(|&q| v.rem_euclid(q as i64) as u64).collect(); let c = decode_small(&r, &qs, pivot, 1).unwrap(); prob[(c + 1) as usize] += 1.0 / 3.0; }
+            if let Some((stat, df)) = pearson(&counts, &prob, total) {
+                let p = chi2_p(stat, df);
+                rep.min("p_value_min_ternary", p); rep.evals(1);
+                rep.distinct_key(&format!("tern|{}|{}", fam, kcls));
+                if p < 1e-12 { rep.violation(&format!("{}|sampler.ternary|{}|distribution", P, kcls), format!("ternary counts (-1,0,1) = {:?} over {} draws: chi2 = {:.1} (df {}), p = {:e} ; {}", counts, total, stat, df, p, info), replay_json(cfg, grp, case, info.clone())); }
+            }
+            if case == 0 { rep.sample(json!({"group": grp, "case": case, "params": info, "draws": total, "ternary_counts_minus1_0_plus1": counts})); }
+        }
+    }
+    // ---------------------------------------------------------------- error (centered binomial)
+    {
+        let mut g = blake(seed);
+        let mut counts = vec![0u64; 43]; let mut failed = false; let mut maxabs = 0i64;
+        'err: for _ in 0..calls {
+            dest.iter_mut().for_each(|x| *x = u64::MAX);
+            if let Err(p) = lib(|| sample::centered_binomial(&mut g, &parms, &mut dest)) { panic_v(cfg, grp, case, rep, "sampler.error", &kcls, &p, info.clone()); failed = true; break; }
+            for i in 0..n {
+                for j in 0..k { res[j] = dest[i + j * n]; }
+                if let Some(j) = (0..k).find(|&j| res[j] >= qs[j]) {
+                    rep.violation(&format!("{}|sampler.error|{}|out_of_range", P, kcls), format!("error sample component {} = {} is not below q_j = {} ; {}", j, res[j], qs[j], info), replay_json(cfg, grp, case, info.clone())); failed = true; break 'err;
+                }
+                // decidable statement: the residues are those of ONE integer of magnitude <= 21
+                match decode_small(&res, &qs, pivot, ERR_BOUND) {
+                    Some(v) => { counts[(v + 21) as usize] += 1; maxabs = maxabs.max(v.abs()); }
+                    None => { rep.violation(&format!("{}|sampler.error|{}|rns_mismatch_or_bound", P, kcls), format!("error coefficient {} has residues {:?} modulo {:?}: no common integer of magnitude <= 21 ; {}", i, res, qs, info), replay_json(cfg, grp, case, info.clone())); failed = true; break 'err; }
+                }
+            }
+        }
+        if !failed {
+            let mut prob = vec![0.0f64; 43]; let mut classes = HashSet::new();
+            for v in -21..=21i64 { let r: Vec<u64> = qs.iter().map(|&q| v.rem_euclid(q as i64) as u64).collect(); let c = decode_small(&r, &qs, pivot, ERR_BOUND).unwrap(); prob[(c + 21) as usize] += cbd_pmf(v); classes.insert(c); }
+            rep.count("error_value_decidability", if classes.len() == 43 { "value_unique" } else { "only_residue_class_decidable" });
+            if classes.len() == 43 { rep.max("error_max_abs_observed", maxabs as f64); }
+            if let Some((stat, df)) = pearson(&counts, &prob, total) {
+                let p = chi2_p(stat, df);
+                rep.min("p_value_min_error", p); rep.evals(1);
+                rep.distinct_key(&format!("err|{}|{}|{}", fam, kcls, classes.len() == 43));
+                if p < 1e-12 {
+                    let mean: f64 = counts.iter().enumerate().map(|(i, &c)| (i as f64 - 21.0) * c as f64).sum::<f64>() / total as f64;
+                    rep.violation(&format!("{}|sampler.error|{}|distribution", P, kcls), format!("error sample law differs from Bin(21,1/2)-Bin(21,1/2): chi2 = {:.1} (df {}), p = {:e}, mean {:.4}, {} draws, counts around 0: {:?} ; {}", stat, df, p, mean, total, &counts[18..25], info), replay_json(cfg, grp, case, info.clone()));
+                }
+            }
+        }
+    }
+    // ---------------------------------------------------------------- uniform
+    {
+        let mut g = blake(seed);
+        let mut buckets: Vec<Vec<u64>> = qs.iter().map(|&q| vec![0u64; q.min(64) as usize]).collect();
+        let mut sums = vec![0u128; k]; let mut failed = false;
+        'uni: for _ in 0..calls {
+            dest.iter_mut().for_each(|x| *x = u64::MAX);
+            if let Err(p) = lib(|| sample::uniform(&mut g, &parms, &mut dest)) { panic_v(cfg, grp, case, rep, "sampler.uniform", &kcls, &p, info.clone()); failed = true; break; }
+            for j in 0..k {
+                let q = qs[j]; let nb = q.min(64);
+                for i in 0..n {
+                    let v = dest[i + j * n];
+                    if v >= q { rep.violation(&format!("{}|sampler.uniform|{}|out_of_range", P, kcls), format!("uniform sample {} in component {} is not below q_j = {} ; {}", v, j, q, info), replay_json(cfg, grp, case, info.clone())); failed = true; break 'uni; }
+                    buckets[j][(v as u128 * nb as u128 / q as u128) as usize] += 1;
+                    sums[j] += v as u128;
+                }
+            }
+        }
+        if !failed {
+            for j in 0..k {
+                let q = qs[j]; let nb = q.min(64) as u128;
+                // bucket b holds the values v with floor(v*nb/q) = b, i.e. ceil(b*q/nb) <= v < ceil((b+1)*q/nb)
+                let edge = |b: u128| -> u128 { (b * q as u128 + nb - 1) / nb };
+                let prob: Vec<f64> = (0..nb).map(|b| (edge(b + 1) - edge(b)) as f64 / q as f64).collect();
+                rep.evals(1);
+                if let Some((stat, df)) = pearson(&buckets[j], &prob, total) {
+                    let p = chi2_p(stat, df);
+                    rep.min("p_value_min_uniform_buckets", p);
+                    if p < 1e-12 { rep.violation(&format!("{}|sampler.uniform|{}|distribution", P, kcls), format!("uniform samples modulo q_{} = {}: {}-bucket chi2 = {:.1} (df {}), p = {:e}, {} draws ; {}", j, q, nb, stat, df, p, total, info), replay_json(cfg, grp, case, info.clone())); }
+                }
+                if q >= 3 {
+                    // mean (q-1)/2, variance (q^2-1)/12
+                    let dev = (2 * sums[j]) as f64 - total as f64 * (q - 1) as f64; // 2*(S - N(q-1)/2), fits f64 with relative error 2^-52
+                    let sd = 2.0 * (total as f64 * ((q as f64) * (q as f64) - 1.0) / 12.0).sqrt();
+                    let z = dev / sd;
+                    let p = normal_two_sided_p(z);
+                    rep.min("p_value_min_uniform_mean", p);
+                    if p < 1e-12 { rep.violation(&format!("{}|sampler.uniform|{}|mean", P, kcls), format!("uniform samples modulo q_{} = {}: mean deviates by z = {:.2} (p = {:e}) over {} draws ; {}", j, q, z, p, total, info), replay_json(cfg, grp, case, info.clone())); }
+                }
+            }
+            rep.distinct_key(&format!("uni|{}|{}", fam, kcls));
+        }
+    }
+    rep.count_n("sampler_draws", "coefficients_per_sampler", total);
+}
+
+// ====================================================================== driver
+pub fn run(cfg: &Cfg, rep: &mut Report) -> PropMeta {
+    let mut t = std::time::Instant::now();
+    let mut lap = |rep: &mut Report, g: &str| { rep.max(&format!("wall_s_{}", g), t.elapsed().as_secs_f64()); t = std::time::Instant::now(); };
+    // (1) generator
+    run_cases(cfg, "blake_ops", cfg.n(16000, 200000) as u64, rep, |i, rng, rep| ops_case(cfg, "blake_ops", i, rng, rep));
+    lap(rep, "blake_ops");
+    run_cases(cfg, "blake_chunkings", cfg.n(6000, 60000) as u64, rep, |i, rng, rep| chunk_case(cfg, "blake_chunkings", i, rng, rep));
+    lap(rep, "blake_chunkings");
+    run_cases(cfg, "blake_norepeat", cfg.n(16, 16) as u64, rep, |i, rng, rep| norepeat_case(cfg, "blake_norepeat", i, rng, rep));
+    lap(rep, "blake_norepeat");
+    run_cases(cfg, "blake_bitflip", cfg.n(32, 256) as u64, rep, |i, rng, rep| bitflip_case(cfg, "blake_bitflip", i, rng, rep));
+    lap(rep, "blake_bitflip");
+    // (2) freshness
+    let hist_ops = cfg.n(1000, 100_000);
+    run_cases(cfg, "history", cfg.pick(64, 32), rep, |i, rng, rep| history_case(cfg, "history", i, rng, rep, hist_ops, false));
+    lap(rep, "history");
+    let hist_os = cfg.n(250, 5000);
+    run_cases(cfg, "history_os_entropy", cfg.pick(32, 32), rep, |i, rng, rep| history_case(cfg, "history_os_entropy", i, rng, rep, hist_os, true));
+    lap(rep, "history_os_entropy");
+    run_cases(cfg, "explicit", cfg.n(4000, 40000) as u64, rep, |i, rng, rep| explicit_case(cfg, "explicit", i, rng, rep));
+    lap(rep, "explicit");
+    run_cases(cfg, "factory", 2, rep, |i, rng, rep| factory_case(cfg, "factory", i, rng, rep, false));
+    run_cases(cfg, "factory_os_entropy", 2, rep, |i, rng, rep| factory_case(cfg, "factory_os_entropy", i, rng, rep, true));
+    lap(rep, "factory");
+    // (3) samplers
+    run_cases(cfg, "samplers", cfg.n(160, 2000) as u64, rep, |i, rng, rep| sampler_case(cfg, "samplers", i, rng, rep));
+    lap(rep, "samplers");
+    PropMeta {
+        id: "C16", level: "exploration",
+        rule: "generator: random sequences of fill_bytes/try_fill_bytes/next_u32/next_u64 biased to end within +-9 bytes of a 4096-byte refill (lengths 0..20000, seeds random/all-zero/all-ff/single-bit) against the BLAKE3-XOF(seed||counter) block definition; 9 chunkings per (seed,total) incl. bytewise, 4095/4097, zero-length; per seed 8 MiB (quick) / 256 MiB (thorough) checked block-wise against the definition and for repeated 4096-byte blocks / 16-byte aligned windows; all 512 one-bit neighbours of a seed. freshness: per context (BFV/BGV/CKKS, N=64/128, 1..4 primes) histories of 10^3/10^5 operations (7 kinds) reduced to mask/seed/secret-key/ciphertext-pair identifiers + near-duplicate search for a reused u; same histories on OS entropy; 15 explicit-generator entry points x twin generators; 10^4 factory generators. samplers: 4 parameter families (context primes of any size, tiny NTT primes, arbitrary tiny primes incl. 2 and 3, large arbitrary primes incl. 2^61-1), 1..6 primes, 2^20 coefficients per sampler and case. distinct = distinct (operation, cursor alignment, refill position) / (chunking) / (scheme, history operation) / (entry point, scheme, seeded or switched) / (sampler, family, k) classes",
+        assumptions: vec![
+            "little-endian host: word reads are compared with the little-endian decoding of the stream bytes".into(),
+            "word reads may sit at any offset between the cursor and the cursor rounded up to the word width (alignment policy is not part of the property); byte reads are exact".into(),
+            "uniqueness is asserted only for identifiers with >= 100 bits of entropy (mask: N*log2 q0, secret key: N*log2 3, pk pair: min(9N, ciphertext bits)); u-reuse search only for N >= 64 and 64*(noise bound) <= q0".into(),
+            "fresh-noise assertions (c0 differs) only for N >= 32".into(),
+            "same-u public-key pairs: difference bound 42 (x t in BGV; floor(42/q_dropped)+1 (x t) after the level switch of Encryptor public-key encryption), asserted per RNS component only when 2*bound < q_j; relies on exact divide-and-round of the level switch (C05/C10)".into(),
+            "chi-square p-values from the asymptotic law with categories of expected count < 100 pooled; threshold 1e-12; samplers driven by BlakeRNG::from_seed(case seed) so the statistics are functions of VERIF_SEED".into(),
+            "OS-entropy groups (history_os_entropy, factory_os_entropy) are not replayable; their violations carry the identifiers".into(),
+            "the context's own generator factory is private; it is observed through the histories, and BlakeRNGFactory::new() (what the context installs) directly".into(),
+        ],
+        exhaustive: false, floor: 20000,
+    }
 }
